@@ -19,7 +19,9 @@ from . import c04
 CHATTER = ['', 'hello', '  padded  ', '\tTab padded\t', '[123] not a message', 'wl_foo@3.bar()',
            '[ 123.456] discarded wl_foo@3.bar(1)', 'x' * 200, 'é… ünï', '[1000.000]', '   ',
            # characters that some line splitters (str.splitlines, codecs readers) treat as line ends; a very long line
-           'form\x0cfeed', 'unit\x1fsep \x1c \x85 next', 'line\u2028sep \u2029 par', 'y' * 20000]
+           'form\x0cfeed', 'unit\x1fsep \x1c \x85 next', 'line\u2028sep \u2029 par', 'y' * 20000,
+           # a program's own coloured output is that line's text
+           '\x1b[32m INFO\x1b[0m app: started', 'reset \x1b[0m only']
 
 
 def _m(t, sent, iface, oid, name, args, conn=None):
@@ -75,7 +77,14 @@ def base_streams():
           _m(T + 500, True, 'wl_compositor', 3, 'create_surface', [['new', 'wl_surface', 4]]),
           _m(T + 600, False, 'wl_surface', 4, 'preferred_buffer_scale', [['int', 2]]),
           _m(T + 700, True, 'wl_surface', 4, 'offset', [['int', 1], ['int', -2]]),
-          _m(T + 800, False, 'wl_surface', 4, 'preferred_buffer_transform', [['int', 3]])]
+          _m(T + 800, False, 'wl_surface', 4, 'preferred_buffer_transform', [['int', 3]]),
+          # a NULL string is printed as nil (allow-null string arguments: wl_data_offer.accept); the offer itself was
+          # announced before this log began
+          _m(T + 900, True, 'wl_data_offer', 30, 'accept', [['int', 5], ['nil']]),
+          # a protocol error is not the end of the log: the client's teardown follows on the same connection
+          _m(T + 1000, False, 'wl_display', 1, 'error', [['obj', 'wl_display', 1], ['int', 1], ['str', 'invalid arguments for wl_surface@4.attach']]),
+          _m(T + 1100, True, 'wl_surface', 4, 'destroy', []),
+          _m(T + 1200, True, 'wl_display', 1, 'sync', [['new', 'wl_callback', 5]])]
     streams['s6_mid_late_registry_newest_messages'] = [wlprint.render(m, 'mid') for m in s6]
     return streams
 
@@ -202,7 +211,8 @@ def eval_chatter(case):
                         V.append(Violation('conservation.passthrough', case, {'line_index': n, 'line': l, 'observed': e}))
         if tail is None or [kind_of(i) for i in tail].count('notice') != len(tail):
             V.append(Violation('conservation.tail', case, {'observed': tail}))
-        logs = [l for l in logs if 'Could not set connection name' not in l[1]]     # naming a connection is best effort
+        # naming a connection is best effort; one base stream addresses an object announced before the log began
+        logs = [l for l in logs if 'Could not set connection name' not in l[1] and 'Unable to resolve object' not in l[1]]
         if logs:
             V.append(Violation('log.noise', case, {'log': logs}))
     except Exception:
